@@ -498,6 +498,13 @@ func genW(c *Ctx) {
 					}
 				}
 			}
+			if c.Family == "CABI" && !w.Init && !stateRowsFit(m, w, cols, nSets) {
+				// A state row that claims more cells than the row has (GR4J's n1/n2 columns, Lag's int(timeLag)) is a caller error: the
+				// Go-backed run panics or reads the next cell's row, the C-backed run reads whatever follows in the caller's memory.
+				// "Same result through both entry points" (C03) presupposes a well-formed call; the malformed rows stay in families K / W.
+				c.Stats.Count("skipped_malformed_state_row")
+				continue
+			}
 			oc, oT := N, T
 			sentinel := 0.0
 			if c.R.Chance(0.5) {
@@ -537,6 +544,27 @@ func genW(c *Ctx) {
 			}
 		}
 	}
+}
+
+// stateRowsFit: every cell's state row is as wide as the kernel will read it
+func stateRowsFit(model string, w *WCall, cols [][]float64, nSets int) bool {
+	for k, row := range w.States {
+		switch model {
+		case "GR4J":
+			if len(row) < 4 {
+				return false
+			}
+			n1, n2 := int(row[2]), int(row[3])
+			if n1 < 1 || n2 < 1 || 4+n1+n2 > len(row) {
+				return false
+			}
+		case "Lag":
+			if int(cols[k%nSets][0]) > len(row) {
+				return false
+			}
+		}
+	}
+	return true
 }
 
 // parameter (index in the column) that determines the width of a model's state row
